@@ -146,6 +146,7 @@ Definition pclassify (stmt : string) : peff :=
   let gs := filter nonempty (split_comma g) in
   if String.eqb a "close:passive_server" then PClose gs
   else if String.eqb a "putport:0:passive_server_port" then PPut gs
+  else if String.eqb a "putport:0:connection.passive_server_port" then PPut gs   (* same expression, no temporary *)
   else if String.prefix "putport:" a then PPutOther gs
   else PNone.
 
